@@ -107,6 +107,10 @@ SameMatches(ls, ss) == Len(ls) = Len(ss) /\ \A i \in DOMAIN ls : SameMatch(ls[i]
 
 StageDrift(S) ==
   IF ~(Has(E, "stage") /\ Has(E, "qtok") /\ Has(E, "hits")) THEN <<>>
+  \* the specification's pipeline is evaluated on the recorded tokenisations; one that is not well formed (C15 reports it)
+  \* cannot be fed to it - the comparison is noted as drift and skipped instead of failing inside an operator
+  ELSE IF ~(WellFormed(E.qtok, TRUE) /\ \A i \in DOMAIN S.s.records : WellFormed(S.s.records[i].tok, FALSE))
+    THEN Check(FALSE, l, "L2", "a recorded tokenisation is not well formed: pipeline conformance not evaluated")
   ELSE
   LET s == S.s
       ev(i) == EvalRecord(s.records[i].tok, s.records[i].rating, E.qtok, s.dividers.l, s.dividers.r)
